@@ -33,11 +33,17 @@ def getter(mod, name):
 
 
 def mask_table(mod, name):
+    """Truth table of a frequency mask over the five order regions.  With
+    several returns, a guard that is not a function of (f, fmin, fmax) keeps
+    both arms possible; a region on which the possible returns disagree, or
+    return something that is not a comparison with the band, gets the entry
+    'not decided by the band' (which equals no expected value)."""
     g = getter(mod, name)
-    ret = [n for n in ast.walk(g) if isinstance(n, ast.Return)]
-    if len(ret) != 1:
-        raise AnalysisError(f'Fourier.{name}: expected one return')
-    src = ast.unparse(ret[0].value)
+    ret = sorted((n for n in ast.walk(g) if isinstance(n, ast.Return)),
+                 key=lambda n: n.lineno)
+    if not ret:
+        raise AnalysisError(f'Fourier.{name}: no return')
+    src = ' '.join(ast.unparse(r.value) for r in ret)
     arr = 'self.freq_coarse' if 'self.freq_coarse' in src else \
         'self.freq_required'
     out = {}
@@ -45,8 +51,24 @@ def mask_table(mod, name):
         fe = FiniteEval({'self.freq_required': x, 'self.freq_coarse': x,
                          'self.fmin': FMIN, 'self.fmax': FMAX,
                          'self._fmin': FMIN, 'self._fmax': FMAX}, where=TIME)
-        out[reg] = bool(fe.ev(ret[0].value))
-    return out, arr, ret[0]
+        vals = set()
+        for r in ret:
+            possible = True
+            for t, pol in au.guards_of(r, g):
+                try:
+                    if bool(fe.ev(t)) != pol:
+                        possible = False
+                except AnalysisError:
+                    pass            # not a function of the band: both arms
+            if not possible:
+                continue
+            try:
+                vals.add(bool(fe.ev(r.value)))
+            except AnalysisError:
+                vals.add('opaque')
+        out[reg] = vals.pop() if len(vals) == 1 and 'opaque' not in vals \
+            else 'not decided by the band'
+    return out, arr, ret[-1]
 
 
 # settings whose value cannot change the result (reason per entry)
@@ -253,6 +275,16 @@ def run(ctx):
     ext, a1, n1 = mask_table(mod, 'ifreq_extrapolate')
     itp, a2, n2 = mask_table(mod, 'ifreq_interpolate')
     cmp_, a3, n3 = mask_table(mod, 'ifreq_compute')
+    for nm_, tb_, nd_ in (('ifreq_extrapolate', ext, n1),
+                          ('ifreq_interpolate', itp, n2),
+                          ('ifreq_compute', cmp_, n3)):
+        und = [r_ for r_, v_ in tb_.items() if not isinstance(v_, bool)]
+        ctx.check('C20.F1.band', f'Fourier.{nm_} is a function of the band',
+                  not und, f'on {und} the mask depends on something else '
+                  'than the position of the frequency relative to fmin and '
+                  'fmax (another setting selects a different mask): '
+                  'frequencies outside the requested band are computed / the '
+                  'three groups are no partition', ctx.where(mod, nd_))
     for reg in REGIONS:
         ctx.check('C20.F1.partition', f'extrapolate/interpolate disjoint on '
                   f'{reg}', not (ext[reg] and itp[reg]),
@@ -277,7 +309,7 @@ def run(ctx):
                   ctx.where(mod, n3), sample={'region': reg,
                                               'compute': cmp_[reg]})
     ctx.floor('C20.F1.partition', 15)
-    ctx.floor('C20.F1.band', 5)
+    ctx.floor('C20.F1.band', 8)
     ctx.check('C20.F2.pairing', 'masks index their own vectors',
               (a1, a2, a3) == ('self.freq_required', 'self.freq_required',
                                'self.freq_coarse'),
